@@ -1115,6 +1115,7 @@ Section Converse.
 
   Notation jdenotes := (json_denotes e float_text).
   Notation dec := (decJ e wc ps_empty ignore parseF).
+  Notation decm f := (djmix e wc ps_empty ignore parseF f).   (* the recursive calls of one step (Ror2NoPanic.decJ_unfold) *)
 
   Lemma reserved_parse64 b s : (b < 18446744073709551616)%N ->
     reserved_float_text (float_kind false b) = Some s -> parseF 0 s = Some (canon_float false b).
@@ -1201,11 +1202,11 @@ Section Converse.
       inversion Hv; subst. rewrite decJ_unfold. unfold stepJ. rewrite canonical_arr.
       match goal with I : items_denote _ _ _ _ _ _ _ _ _ |- _ => rename I into HI end.
       match goal with F : Forall (valid_value e t') _ |- _ => rename F into HF end.
-      assert (G : forall i acc tr0, goJarr (dec f) t' xs i acc tr0 = Ok (VArr (rev acc ++ map canonical vs), tr0)).
+      assert (G : forall i acc tr0, goJarr (decm f) t' xs i acc tr0 = Ok (VArr (rev acc ++ map canonical vs), tr0)).
       { apply items_denote_Forall2 in HI. clear Hd Hv. revert HF.
         induction HI as [|x v xs vs Hx _ IHI]; intros HF i acc tr0.
         - cbn [goJarr map]. rewrite app_nil_r. reflexivity.
-        - inversion HF as [|? ? Hvx HF']; subst. cbn [goJarr].
+        - inversion HF as [|? ? Hvx HF']; subst. cbn [goJarr]. rewrite djmix_false.
           rewrite (IH Hr x v Hx Hvx f false (enter_array i tr0) ltac:(lia)). cbn [bind].
           unfold enter_array. rewrite pop_push. rewrite (IHI HF' (S i) (canonical v :: acc) tr0).
           cbn [rev map]. rewrite <- app_assoc. reflexivity. }
@@ -1234,7 +1235,7 @@ Section Converse.
       destruct (HM ms (incl_refl ms)) as [vs' Hvs'].
       assert (G : forall l vs0, Forall2 (fun kx kv => fst kx = fst kv /\ jdenotes t' (snd kx) (snd kv) /\ In kv es) l vs0 ->
                 forall acc tr0, NoDup (map fst acc ++ map fst l) ->
-                goJmap wc ps_empty ignore (dec f) t' l acc tr0 = Ok (VMap (sort_entries (acc ++ map canon_ent vs0)), tr0)).
+                goJmap wc ps_empty ignore (decm f) t' l acc tr0 = Ok (VMap (sort_entries (acc ++ map canon_ent vs0)), tr0)).
       { induction 1 as [|[k x] [k' v] l' vs0' [Ek [Hx Hin]] _ IHG]; intros acc tr0 HN.
         - cbn [goJmap map]. rewrite app_nil_r. reflexivity.
         - cbn [fst snd] in *. subst k'. cbn [goJmap].
@@ -1242,7 +1243,7 @@ Section Converse.
           assert (Hvx : valid_value e t' v) by (rewrite Forall_forall in HF; apply (HF (k, v) Hin)).
           assert (Step : (do tr1 <- enter_map wc ps_empty ignore k tr0;
                           do rr <- dec f false t' x tr1;
-                          let '(v1, tr2) := rr in goJmap wc ps_empty ignore (dec f) t' l' (map_put k v1 acc) (pop tr2))
+                          let '(v1, tr2) := rr in goJmap wc ps_empty ignore (decm f) t' l' (map_put k v1 acc) (pop tr2))
                          = Ok (VMap (sort_entries (acc ++ map canon_ent ((k, v) :: vs0'))), tr0)).
           { rewrite enter_map_empty. cbn [bind]. rewrite (IH Hr x v Hx Hvx f false _ ltac:(lia)). cbn [bind].
             rewrite pop_push. rewrite map_put_fresh.
